@@ -191,6 +191,9 @@ func runC06(c *Cfg) {
 			cs.Items[rg.IntN(cs.N-1)].K = 2
 			cs.Build = "builder"
 		}
+		if i%6 == 1 && cs.Build == "builder" {
+			cs.Shape, cs.ExecStyle = "results-with-errors", "result" // error Results among the items: still items, in prep's order
+		}
 		cs.CtxLike = i%5 == 2 // failing items report a per-item timeout (an error that wraps a context error): an item failure like any other
 		if i%4 == 0 {
 			cs.ErrResult = true // failures reported as (NewErrorResult(e), nil): the error state must reach the slot as it is
@@ -222,6 +225,14 @@ func runC06(c *Cfg) {
 		}
 		if i%3 == 0 {
 			cs.Family = "cancel-random"
+			if rg.IntN(2) == 0 { // more items than workers plus queue can hold: the submitter is blocked when the cancellation comes
+				cs.N = 3*cc + 1 + rg.IntN(6)
+				cs.Items = make([]ItemScript, cs.N)
+				for j := range cs.Items {
+					cs.Items[j].K = 1 + rg.IntN(budget+1)
+				}
+				n = cs.N
+			}
 			cs.Stop = rg.IntN(2) == 0
 			cs.Cancel = &CancelSpec{Kind: []string{"cancel", "deadline", "cause"}[i%3], Item: rg.IntN(n), Attempt: 1}
 		}
@@ -470,6 +481,12 @@ func runC07(c *Cfg) {
 			// fallbacks are gated too and held as long as possible: a failing item sitting in its fallback keeps nobody else from being processed
 			cs.Gated, cs.GateFB, cs.Policy, cs.SleepUs, cs.Family = true, true, "hold-fallbacks", 0, "scripts-fallbacks-held"
 		}
+		if i%23 == 11 && cs.Prelude == nil {
+			// the earlier run of this node had the same number of items and its post failed: every item of the later run is
+			// processed again from scratch
+			cs.Prelude = &Prelude{N: n, Items: genItems(rg, n, budget, 0), PostFail: true}
+			cs.Family = "scripts-after-earlier-failed-post"
+		}
 		if i%19 == 4 && cs.Prelude == nil && cc >= 1 {
 			pn := 4*cc + 3 + rg.IntN(8)
 			cs.Prelude = &Prelude{N: pn, Items: make([]ItemScript, pn), Cancelled: true}
@@ -526,6 +543,9 @@ func runC02Batch(c *Cfg) {
 			cs.Build, cs.FB = "compose", rg.IntN(3) != 0
 		}
 		cs.CtxLike = rg.IntN(4) == 0
+		if i%9 == 4 && cs.Build != "compose" {
+			cs.Shape, cs.ExecStyle = "results-with-errors", "result" // items that arrive as error Results get the same budget and fallback as any other item
+		}
 		if i%5 == 1 && cs.Build != "compose" {
 			// the node ran before with another budget and was then re-configured (builder method / option on its BaseNode)
 			pb := 1 + rg.IntN(8)
@@ -685,6 +705,33 @@ func runC09(c *Cfg) {
 				for _, stop := range []bool{true, false} {
 					ca = append(ca, &BatchCase{Family: "mode-then-concurrency", N: n, C: cc, Stop: stop, SetMode: true, Budget: 1, Items: it, Shape: "results", Build: "builder-mode-first", ExecStyle: []string{"result", "any"}[(cc+f)%2], Gated: true, Policy: []string{"holdfail", "first", "random"}[(n+cc)%3], PSeed: uint64(n*100 + cc)})
 				}
+			}
+		}
+	}
+	// the node ran before with MORE workers and was then re-configured: one worker / sequential means exactly that now
+	for _, c2 := range []int{0, 1, 2} {
+		for _, via := range []string{"builder", "option"} {
+			n := 8
+			it := make([]ItemScript, n)
+			for j := range it {
+				it[j].K = 1
+			}
+			it[0].K = 2
+			ca = append(ca, &BatchCase{Family: "stop-after-lowering-concurrency", N: n, C: c2, Stop: true, SetMode: true, Budget: 1, Items: it, Shape: "results", Build: "builder", ExecStyle: "result", Gated: true, Policy: "holdfail",
+				Prelude: &Prelude{N: 6, Items: make([]ItemScript, 6), Budget: 1, C: 4, ReVia: via}})
+		}
+	}
+	// cancellation in the middle of a batch whose fallback turns every error into a value: what was never executed
+	// still is not a success
+	for _, cc := range []int{0, 1, 2, 3} {
+		for _, stop := range []bool{false, true} {
+			for _, at := range []int{0, 3} {
+				n := 7
+				it := make([]ItemScript, n)
+				for j := range it {
+					it[j].K = 1
+				}
+				ca = append(ca, &BatchCase{Family: "cancel-with-rescuing-fallback", N: n, C: cc, Stop: stop, SetMode: true, Budget: 1, FB: true, Items: it, Shape: []string{"results", "any"}[cc%2], Build: []string{"options", "compose"}[cc%2], ExecStyle: []string{"result", "any"}[at%2], Gated: true, Policy: "holdfail", Cancel: &CancelSpec{Kind: []string{"cancel", "deadline"}[cc%2], Item: at, Attempt: 1}})
 			}
 		}
 	}
@@ -869,6 +916,18 @@ func runC11(c *Cfg) {
 				}
 				cx = append(cx, &BatchCase{Family: "large-pre", N: n, C: cc, Stop: stop, SetMode: true, Budget: 1, Items: it, Shape: "results", Build: "builder", ExecStyle: "result", Gated: true, Policy: "first", Cancel: &CancelSpec{Kind: "pre-cancel"}})
 				cx = append(cx, &BatchCase{Family: "large-in-exec", N: n, C: cc, Stop: stop, SetMode: true, Budget: 1, Items: it, Shape: "results", Build: "builder", ExecStyle: "any", Gated: true, Policy: "holdfail", Cancel: &CancelSpec{Kind: "cancel", Item: 2, Attempt: 1}})
+			}
+		}
+	}
+	for _, cc := range []int{0, 1, 3} { // a fallback that rescues everything is installed: cancellation is not an exec failure to be rescued
+		for _, stop := range []bool{false, true} {
+			for _, budget := range []int{1, 2} {
+				n := 6
+				it := make([]ItemScript, n)
+				for j := range it {
+					it[j].K = budget + 1
+				}
+				cx = append(cx, &BatchCase{Family: "in-exec-with-rescuing-fallback", N: n, C: cc, Stop: stop, SetMode: true, Budget: budget, FB: true, Items: it, Shape: "results", Build: "options", ExecStyle: "result", Gated: true, Policy: "holdfail", Cancel: &CancelSpec{Kind: "cancel", Item: 1, Attempt: 1}})
 			}
 		}
 	}
